@@ -45,3 +45,34 @@ Theorem C10_no_lost_wakeup_in_every_factory :
       StoreBProps.NoLost (World.est ed) /\ StoreBWeak.W (World.est ed).
 Proof. exact FactoryQueue.no_lost_wakeup_everywhere. Qed.
 Print Assumptions C10_no_lost_wakeup_in_every_factory.
+
+(* "A node that commits to one edge withdraws its requests on all the others, so no reservation is left
+   behind that would permanently occupy space": every node process of the model commits through the one
+   helper [Factory.cancel_others]; at every reachable world of every configuration whose edges start
+   with distinct tokens (e.g. empty), after its call on the space side none of the other tokens is waiting
+   or granted on its edge any more, and the call has not planted a token anywhere
+   (theories/Factory/FactoryWithdraw.v over the unconditional token invariant of theories/Stores/StoreBTok.v).
+   The retrieval side is not covered: cancelling a granted retrieval is only guaranteed to remove it when
+   its item is still available, which needs the conditional store invariant. *)
+From FV Require StoreBTok FactoryWithdraw.
+Theorem C10_commit_withdraws_other_space_requests :
+  forall nodes edges order n, Forall (fun ed => StoreBTok.TokB (World.est ed)) edges ->
+  let w := FactoryInv.iter_fstep n (Factory.mk_world nodes edges order) in
+  forall es ts keep, (forall e, In e es -> (e < length (World.wedges w))%nat) ->
+    let w' := Factory.cancel_others w es ts keep true in
+    (forall e t, In (e, t) (combine es ts) -> t <> keep -> ~ FactoryWithdraw.PTw w' e t) /\
+    (forall e t, ~ FactoryWithdraw.PTw w e t -> ~ FactoryWithdraw.PTw w' e t).
+Proof. exact FactoryWithdraw.commit_withdraws_other_space_requests. Qed.
+Print Assumptions C10_commit_withdraws_other_space_requests.
+
+Theorem C10_cancelled_space_request_is_gone :
+  forall s t, StoreBTok.TokB s -> ~ StoreBTok.PT (StoreB.step_st s (StoreB.CPut t)) t.
+Proof. exact StoreBTok.cput_absent. Qed.
+Print Assumptions C10_cancelled_space_request_is_gone.
+
+Theorem C10_token_invariant_unconditional : forall s o, StoreBTok.TokB s -> StoreBTok.TokB (StoreB.step_st s o).
+Proof. exact StoreBTok.tokb_step. Qed.
+Print Assumptions C10_token_invariant_unconditional.
+
+Example C10_fresh_edge_tokens_ok : forall k m c, StoreBTok.TokB (StoreB.init k m c).
+Proof. exact StoreBTok.init_tokb. Qed.
